@@ -48,20 +48,24 @@ OPEN_CLI = [
     "C12_cost_line / C12_all_superset_any: the interface hypotheses are discharged in Properties/C12Bridge.lean "
     "(embedding Sol -> RecOutput/SRecOutput in Model/SolOutput.lean; `evaluated cost of the embedded output = "
     "totalCost`, well-formedness under injective safe names, the evaluator's set-invariance and the Newick law are "
-    "theorems: C12_cost_line_thl / _exh / _spfs / _uspfs, C12_all_superset_any_thl / _spfs / _uspfs). (i) the JSON text "
-    "layer is modelled (Model/Json.lean: render = json.dumps with default options, parse = json.loads, tied byte for "
-    "byte by harness/checks/c12_json.py) and `json.loads(json.dumps(v)) = v` is a THEOREM for every value without "
-    "repeated keys, all string escapes included (C12_json_roundtrip; to_dict never repeats a key: C12_to_dict_ok_*), "
-    "so the cost-line theorems hold on the written TEXT with no hypothesis on the encoder "
-    "(Properties/C12Json.lean: C12_cost_line_text_thl / _exh / _spfs / _uspfs — one line per result, every line parses "
-    "to a dictionary read back with the printed cost); floats other than +-Infinity, NaN and strings with lone "
-    "surrogates are outside the JSON model (to_dict writes none). Left: (ii) `--solutions any` inside each family's coherent region "
-    "only (outside, ANY in ALL fails: C05_any_incoherent_witness); `lca` and `exh` are covered by "
-    "Properties/C12BridgeExtra.lean (C12_cost_line_lca, C12_all_superset_any_exh, C12_minCostText_inj: the printed k "
-    "determines the cost); (iii) Review H: the embedded trees of these theorems are BINARY and UNCOLOURED (coloured "
-    "inputs are exercised by the check and by the C11 round-trip theorems, not by the composed cost-line theorems, "
-    "unless Properties/C12Colour.lean is present) and the names are ASSUMED distinct and safe (`Naming.Ok`), not "
-    "derived from label_internal's theorems",
+    "theorems: C12_cost_line_thl / _exh / _lca / _spfs / _uspfs, C12_all_superset_any_thl / _exh / _lca / _spfs / "
+    "_uspfs). (i) the JSON text layer is modelled (Model/Json.lean: render = json.dumps with default options, parse = "
+    "json.loads, tied byte for byte by harness/checks/c12_json.py) and `json.loads(json.dumps(v)) = v` is a THEOREM for "
+    "every value without repeated keys, all string escapes included (C12_json_roundtrip; to_dict never repeats a key: "
+    "C12_to_dict_ok_*), so the cost-line theorems hold on the written TEXT with no hypothesis on the encoder "
+    "(Properties/C12Json.lean: C12_cost_line_text_* — one line per result, every line parses to a dictionary read back "
+    "with the printed cost); floats other than +-Infinity, NaN and strings with lone surrogates are outside the JSON "
+    "model (to_dict writes none). (ii) COLOURS: all of the above for every colouring of the two input trees by safe "
+    "words (Model/SolOutputColour.lean, Properties/C12Colour.lean: C12_col_cost_line_* / _text_* / "
+    "C12_col_all_superset_any_*; the evaluator ignores colours: C12_col_eval_ignores_colours; every named coloured tree "
+    "is an embedded tree: C12_col_every_tree; the emb tie runs on coloured inputs). (iii) NAMES: Naming.Ok is derived "
+    "from label_internal (Properties/C12Names.lean: C12_label_naming_ok, C12_label_is_embedding, "
+    "C12_cli_cost_line_text_thl / _uspfs) for input trees whose given names are pairwise distinct words over ASCII "
+    "[A-Za-z0-9_] and whose colours are such words. Left: names / colours outside that alphabet but inside the Newick "
+    "codec's domain (`E.coli_1`, `sp-1`, non-ASCII letters, `#0000FF`: C12_names_alphabet_gap; needs C11's WF restated "
+    "with Newick.safeName); the step from the input FILE's text to the trees (read_input + Newick reader) is covered by "
+    "C11/C12Refine separately, not composed; `--solutions any` inside each family's coherent region only (outside, ANY "
+    "in ALL fails: C05_any_incoherent_witness); binary species tree; CPython's 4300-digit int/str limit",
     "eval_cost: no theorem relates the shunting-yard parser to Python's grammar (tie only); proved: totality, "
     "no exception other than the three listed, the algebra of the values, and the print/parse round trip on "
     "fully-parenthesised token strings (clause 1 of C12_eval_cost)",
